@@ -987,6 +987,10 @@ public:
 	}
 	bool set(long pos, T *ref)
 	{
+		/* content may be shared with array copies */
+		if (!unique_array<reference<T> >::get(pos) || !this->detach()) {
+			return false;
+		}
 		reference<T> *ptr = unique_array<reference<T> >::get(pos);
 		if (!ptr) {
 			return false;
@@ -996,6 +1000,11 @@ public:
 	}
 	long clear(const T *ref = 0) const
 	{
+		/* content shared with array copies must not change */
+		content<reference<T> > *d = this->_ref.instance();
+		if (!d || d->shared()) {
+			return 0;
+		}
 		reference<T> *ptr = this->begin();
 		long elem = 0;
 		
@@ -1019,6 +1028,11 @@ public:
 	}
 	void compact()
 	{
+		/* content shared with array copies must not change */
+		content<reference<T> > *d = this->_ref.instance();
+		if (!d || d->shared()) {
+			return;
+		}
 		::mpt::compact(span<void *>(reinterpret_cast<void **>(this->begin()), this->length()));
 	}
 protected:
